@@ -116,9 +116,11 @@ class Machine:
         self.fixed_named = {}
         self.race = None
         self.max_recursion = 4
+        self.path_kill = not os.environ.get('XSYM_NO_PATHKILL'); self.kill = None; self.win_hi = None
+        self.private_stack = not os.environ.get('XSYM_NO_PRIVSTACK'); self.pass_written = set()
         self.do_restrict = False   # guard-context simplification of loaded values (enabled in window passes)
         self.hard_loop_cap = 5000
-        self.pruner = None; self.prune_above = 1 << 30; self.prune_loops = False; self.sym_loop_cap = 100
+        self.pruner = None; self.prune_above = 1 << 30; self.prune_loops = False; self.sym_loop_cap = 100; self.prune_iter = False
         self._layout()
 
     # ------------------------------------------------------------ layout
@@ -366,6 +368,20 @@ class Machine:
             if isinstance(p, Term): p = T.restrict(p, g)
             if isinstance(val, Term): val = T.restrict(val, g)
         cs = self.cands(p, g, what)
+        if self.win is not None and self.private_stack:
+            lo = STACK_BASE + self.cur.tid * STACK_STRIDE
+            if len(cs) == 1 and cs[0][1] is True and lo <= cs[0][0] < lo + STACK_STRIDE:
+                a = cs[0][0]
+                al = self.alloc_of(a)
+                if al is not None and not al.shared and a + n <= al.base + al.size:
+                    # first write of this pass to a private stack word: what it held before belongs to the previous pass
+                    w0 = a & ~7
+                    if w0 not in self.pass_written and (a + n - 1) & ~7 == w0:
+                        self.pass_written.add(w0)
+                        self.wr(a, n, val, True)
+                        return
+            elif n == 8:
+                self._escape(val)
         for a, c in cs:
             gc = And(g, c)
             if gc is False: continue
@@ -635,10 +651,63 @@ class Machine:
         raise Unsupported('store of ' + rt.k)
 
     # ------------------------------------------------------------ visible operation windowing
+    def _private(self, p):
+        """the access touches only stack memory of the current thread whose address never left the thread: such
+        accesses cannot be observed by other threads and are not context-switch points"""
+        if self.win is None or not self.private_stack: return False
+        lo = STACK_BASE + self.cur.tid * STACK_STRIDE; hi = lo + STACK_STRIDE
+        if not isinstance(p, Term):
+            if not (lo <= p < hi): return False
+            al = self.alloc_of(p)
+            return al is not None and not al.shared
+        vs = p.vs if p.vs is not False else get_vs(p)
+        if vs is None: return False
+        for a in vs:
+            if not (lo <= a < hi): return False
+            al = self.alloc_of(a)
+            if al is None or al.shared: return False
+        return True
+
+    def _escape(self, val):
+        """a value is stored outside the current thread's private stack: stack objects it points to become shared"""
+        if isinstance(val, Term):
+            if val.w != 64: return
+            vs = val.vs if val.vs is not False else get_vs(val)
+            if vs is None: return
+            vals = vs
+        else:
+            vals = (val,)
+        for a in vals:
+            if STACK_BASE <= a < HEAP_BASE:
+                al = self.alloc_of(a)
+                if al is not None and al.kind == 'stack' and not al.shared:
+                    al.shared = True; self.stats['escaped_stack_objects'] += 1
+
+    def _align(self, guards):
+        """join of paths that passed different numbers of visible operations: every path continues only if the round's
+        window reaches beyond ALL of them (the next visible operation lies behind every one of them anyway), which
+        makes the guards factor at the join"""
+        hi = self.win_hi
+        if not isinstance(hi, Term): return guards
+        los = []
+        for g in guards:
+            lo = 0
+            if isinstance(g, Term):
+                sm = T._summary(g)
+                if sm is not None:
+                    o = sm[1].get(hi.id)
+                    if o is not None: lo = o[0]
+            los.append(lo)
+        m = max(los)
+        if m == 0 or min(los) == m: return guards
+        lit = Cmp('ule', m, hi, hi.w)
+        return [g if lo == m else And(g, lit) for g, lo in zip(guards, los)]
+
     def vis(self, g, sub=0):
         """effective guard and history key of the visible operation at the current key path"""
         if self.win is None: return g, None
         key = tuple(self.keypath) if sub == 0 else tuple(self.keypath) + (('s', sub),)
+        if self.path_kill: self.kill = self.upto(key)
         return And(g, self.win(key)), key
 
     def keep(self, key, eg, val, ty):
@@ -678,6 +747,8 @@ class Machine:
         self._region(fr, top)
         # merge returns
         ng = False; rv = None
+        if len(fr.rets) > 1 and self.win_hi is not None:
+            fr.rets = list(zip(self._align([r[0] for r in fr.rets]), [r[1] for r in fr.rets]))
         for rg, v in fr.rets:
             if ng is False: rv = v
             elif v is not None: rv = self.merge(rg, v, rv, f.ret)
@@ -709,7 +780,15 @@ class Machine:
                 fr.inc.pop(L.header); break
             # iterations whose continuation was decided concretely are simply executed; only iterations
             # entered under a new symbolic condition count against the unwinding bound U
-            if k > 0 and g is not prev: ksym += 1
+            if k > 0 and g is not prev:
+                if self.prune_iter and self.pruner is not None and g is not True:
+                    # another iteration under a new symbolic condition: ask the solver whether any execution gets here
+                    # (retry loops of lock-free code only repeat after interference, which the merged paths cannot see)
+                    self.pruner.sync(self.assumptions)
+                    if not self.pruner.feasible(g):
+                        fr.inc.pop(L.header); self.stats['loops_cut_infeasible'] += 1
+                        break
+                ksym += 1
             if ksym > U or k >= (self.hard_loop_cap if g is True else self.sym_loop_cap):
                 # the cut removes every later iteration from THIS pass: that matters whenever the cut point lies before
                 # the end of the current window (also when it lies before its start: later iterations may be inside)
@@ -762,6 +841,8 @@ class Machine:
 
     def _block(self, fr, b, edges):
         env = fr.env
+        if len(edges) > 1 and self.win_hi is not None:
+            for e, ng in zip(edges, self._align([e.g for e in edges])): e.g = ng
         g = OrL(e.g for e in edges)
         if g is False: return
         for p in b.phis:
@@ -786,19 +867,27 @@ class Machine:
                 env[I.dst] = self.cast(op, const(I.a, I.x, env), I.x, I.ty)
             elif op == 'load':
                 kp.append(I.idx)
-                eg, key = self.vis(g)
                 p = const(I.a, ir.PTR, env)
+                if self._private(p): eg, key = g, None
+                else: eg, key = self.vis(g)
                 v = self.load_ty(p, I.ty, eg)
                 self.event('load', eg, key, I, p)
                 env[I.dst] = self.keep(key, eg, v, I.ty)
                 kp.pop()
+                if self.kill is not None:
+                    g = And(g, self.kill); self.kill = None
+                    if g is False: break
             elif op == 'store':
                 kp.append(I.idx)
-                eg, key = self.vis(g)
                 p = const(I.b, ir.PTR, env)
+                if self._private(p): eg, key = g, None
+                else: eg, key = self.vis(g)
                 self.event('store', eg, key, I, p)
                 self.store_ty(p, I.ty, const(I.a, I.ty, env), eg)
                 kp.pop()
+                if self.kill is not None:
+                    g = And(g, self.kill); self.kill = None
+                    if g is False: break
             elif op == 'select':
                 env[I.dst] = self.merge(const(I.a, _I1, env), const(I.b, I.ty, env), const(I.c, I.ty, env), I.ty)
             elif op == 'br':
@@ -817,8 +906,13 @@ class Machine:
                 self._edge(fr, b, I.b, rest)
             elif op == 'call' or op == 'invoke':
                 kp.append(I.idx)
+                self.kill = None
                 ng, rv, eg = self._call(fr, I, g)
                 kp.pop()
+                if self.kill is not None:
+                    # a visible builtin (allocation, harness call, ...): the path continues only if the operation
+                    # lies before the end of this round's window
+                    ng = And(ng, self.kill); self.kill = None
                 if I.dst is not None: env[I.dst] = rv
                 if op == 'invoke':
                     self._edge(fr, b, I.order, ng)
@@ -837,8 +931,9 @@ class Machine:
                 kp.pop()
             elif op == 'cmpxchg':
                 kp.append(I.idx)
-                eg, key = self.vis(g)
                 p = const(I.a, ir.PTR, env); exp = const(I.b, I.ty, env); new = const(I.c, I.ty, env)
+                if self._private(p): eg, key = g, None
+                else: eg, key = self.vis(g)
                 n = self.ty.size(I.ty); w = n * 8
                 old = self.load(p, n, eg, 'cmpxchg')
                 ok = Cmp('eq', old, exp, w)
@@ -846,10 +941,14 @@ class Machine:
                 self.store(p, n, new, And(eg, ok), 'cmpxchg')
                 env[I.dst] = self.keep(key, eg, (old, ok), _CX[w])
                 kp.pop()
+                if self.kill is not None:
+                    g = And(g, self.kill); self.kill = None
+                    if g is False: break
             elif op == 'atomicrmw':
                 kp.append(I.idx)
-                eg, key = self.vis(g)
                 p = const(I.a, ir.PTR, env); x = const(I.b, I.ty, env)
+                if self._private(p): eg, key = g, None
+                else: eg, key = self.vis(g)
                 n = self.ty.size(I.ty); w = n * 8
                 old = self.load(p, n, eg, 'atomicrmw')
                 o = I.x
@@ -864,11 +963,17 @@ class Machine:
                 self.store(p, n, new, eg, 'atomicrmw')
                 env[I.dst] = self.keep(key, eg, old, I.ty)
                 kp.pop()
+                if self.kill is not None:
+                    g = And(g, self.kill); self.kill = None
+                    if g is False: break
             elif op == 'fence':
                 kp.append(I.idx)
                 eg, key = self.vis(g)
                 self.event('fence', eg, key, I, None)
                 kp.pop()
+                if self.kill is not None:
+                    g = And(g, self.kill); self.kill = None
+                    if g is False: break
             elif op == 'extractvalue':
                 v = const(I.a, I.ty, env)
                 for i in I.b: v = v[i]
@@ -921,7 +1026,10 @@ class Machine:
         cal = I.a
         args = [self.const(x, t, env) for t, x in I.b]
         if cal[0] == 'g':
-            return self.call_function(cal[1], args, g) if cal[1] in self.mod.funcs else self.builtin(cal[1], args, g, I)
+            if cal[1] in self.mod.funcs:
+                r = self.call_function(cal[1], args, g); self.kill = None
+                return r
+            return self.builtin(cal[1], args, g, I)
         if cal[0] == 'asm':
             return self.asm(cal[1], args, g, I)
         fp = self.const(cal, ir.PTR, env)
@@ -941,6 +1049,7 @@ class Machine:
                 rv = r1 if rv is None else self.merge(n1, r1, rv, I.ty)
             ng = Or(ng, n1); eg = Or(eg, e1)
         if rv is None and I.ty.k != 'void': rv = self.zero_of(I.ty)
+        self.kill = None
         return ng, rv, eg
 
     def asm(self, text, args, g, I):
